@@ -1358,44 +1358,58 @@ func (s *TxStore) RemoveRelevantTx(tx mwdb.DBTransaction, addrmgr *keystore.Addr
 		return nil, false, err
 	}
 
-	for hash := range unminedHashes {
-		v, err := existsRawUnmined(nsUnmined, hash[:])
-		if err != nil {
-			return nil, false, err
-		}
-		if len(v) == 0 {
-			logging.CPrint(logging.WARN, "unmined not found",
-				logging.LogFormat{
-					"tx": hash.String(),
-				})
-			continue
-		}
-		err = readRawUnmined(v, &rec)
-		if err != nil {
-			return nil, false, err
-		}
-		removable, err := s.removableTxForRemoveWallet(tx, &rec.MsgTx, scriptHashSet)
-		if err != nil {
-			return nil, false, err
-		}
-		if removable {
-			err = deleteRawUnmined(nsUnmined, hash[:])
+	// dropUnmined deletes the unmined record of each of these transactions unless another wallet
+	// still needs it
+	dropUnmined := func(hashes map[wire.Hash]struct{}) error {
+		for hash := range hashes {
+			v, err := existsRawUnmined(nsUnmined, hash[:])
 			if err != nil {
-				return nil, false, err
+				return err
 			}
-			cpHash := hash
-			deletedTx = append(deletedTx, &cpHash)
+			if len(v) == 0 {
+				continue
+			}
+			err = readRawUnmined(v, &rec)
+			if err != nil {
+				return err
+			}
+			removable, err := s.removableTxForRemoveWallet(tx, &rec.MsgTx, scriptHashSet)
+			if err != nil {
+				return err
+			}
+			if removable {
+				err = deleteRawUnmined(nsUnmined, hash[:])
+				if err != nil {
+					return err
+				}
+				// its spent marks go with it; other unmined spenders of the same outputs keep theirs
+				rec.Hash = hash
+				if err := s.utxoStore.removeUnminedInputsOf(tx, &rec); err != nil {
+					return err
+				}
+				cpHash := hash
+				deletedTx = append(deletedTx, &cpHash)
+			}
 		}
+		return nil
+	}
+	if err := dropUnmined(unminedHashes); err != nil {
+		return nil, false, err
 	}
 
 	// mined tx
-	heightOfTx, finish, err := s.utxoStore.removeRelevantCredit(tx, scriptHashSet)
+	heightOfTx, spenders, finish, err := s.utxoStore.removeRelevantCredit(tx, scriptHashSet)
 	if err != nil {
 		logging.CPrint(logging.ERROR, "removeRelevantCredit failed",
 			logging.LogFormat{
 				"err":      err,
 				"walletId": addrmgr.Name(),
 			})
+		return nil, false, err
+	}
+	// unmined transactions that only SPEND a coin of the removed wallet have no unmined credit of it:
+	// they are found through the spent marks of the credits just deleted
+	if err := dropUnmined(spenders); err != nil {
 		return nil, false, err
 	}
 
